@@ -602,4 +602,207 @@ theorem pathSimplifyPtr_eq (s : Bytes) : pathSimplifyPtr s = pathSimplify s := b
             rw [he] at hl
             exact hl
 
+
+/-! ### buffer_urldecode_path() -/
+
+theorem urldecodePath_cons_ne {b : UInt8} (hb : b ≠ pct) (X : Bytes) :
+    urldecodePath (b :: X) = b :: urldecodePath X := by
+  match X with
+  | [] => simp [urldecodePath]
+  | [x] => simp [urldecodePath]
+  | h :: l :: r => rw [urldecodePath]; simp [hb]
+
+theorem urldecodePath_prefix : ∀ (pre rest : Bytes), pct ∉ pre →
+    urldecodePath (pre ++ rest) = pre ++ urldecodePath rest := by
+  intro pre
+  induction pre with
+  | nil => intro rest _; rfl
+  | cons c cs ih =>
+    intro rest h
+    have hc : c ≠ pct := fun e => h (by simp [e])
+    simp only [List.cons_append]
+    rw [urldecodePath_cons_ne hc, ih rest (fun e => h (by simp [e]))]
+
+theorem urldecodePath_nopct (s : Bytes) (h : pct ∉ s) : urldecodePath s = s := by
+  have := urldecodePath_prefix s [] h
+  simpa [urldecodePath] using this
+
+theorem takeWhile_split (p : UInt8 → Bool) (l : Bytes) :
+    l = l.takeWhile p ++ l.drop (l.takeWhile p).length := by
+  have := List.takeWhile_append_dropWhile (p := p) (l := l)
+  conv => lhs; rw [← this]
+  congr 1
+  induction l with
+  | nil => rfl
+  | cons c r ih =>
+    simp only [List.takeWhile_cons, List.dropWhile_cons]
+    split
+    · simpa using ih
+    · simp
+
+theorem dropWhile_stop (p : UInt8 → Bool) : ∀ (l : Bytes) (x : UInt8) (t : Bytes),
+    l.dropWhile p = x :: t → p x = false := by
+  intro l
+  induction l with
+  | nil => intro x t h; simp at h
+  | cons c r ih =>
+    intro x t h
+    simp only [List.dropWhile_cons] at h
+    split at h
+    · exact ih x t h
+    · rename_i hc
+      simp only [List.cons.injEq] at h
+      rw [← h.1]; simpa using hc
+
+theorem takeWhile_no (p : UInt8 → Bool) (l : Bytes) (x : UInt8) (h : x ∈ l.takeWhile p) : p x = true := by
+  induction l with
+  | nil => simp at h
+  | cons c r ih =>
+    simp only [List.takeWhile_cons] at h
+    split at h
+    · rename_i hc
+      simp only [List.mem_cons] at h
+      rcases h with e | e
+      · rw [e]; exact hc
+      · exact ih e
+    · simp at h
+
+theorem hexC_zero : hexC (0 : UInt8) = none := by decide
+
+/-- the decode step agrees with the specification's case split -/
+theorem urldecodeStep_spec (po r : Bytes) (h0 : (0 : UInt8) ∉ r) :
+    (urldecodeStep (pct :: po) r).1.reverse ++ urldecodePath (urldecodeStep (pct :: po) r).2
+      = po.reverse ++ urldecodePath (pct :: r) ∧
+    (0 : UInt8) ∉ (urldecodeStep (pct :: po) r).2 ∧ (urldecodeStep (pct :: po) r).2.length ≤ r.length := by
+  match r, h0 with
+  | [], _ => simp [urldecodeStep, hexC_zero, urldecodePath]
+  | [h], h0 =>
+    have hh : h ≠ 0 := fun e => h0 (by simp [e])
+    have hst : urldecodeStep (pct :: po) [h] = (pct :: po, [h]) := by
+      unfold urldecodeStep
+      simp only [List.getD_cons_zero, List.getD_cons_succ, List.getD_nil, hh, ne_eq, not_false_eq_true,
+                 if_true, hexC_zero]
+      cases hexC h <;> rfl
+    rw [hst]; simp [urldecodePath, hh, Ne.symm hh]
+  | h :: l :: rest, h0 =>
+    have hh : h ≠ 0 := fun e => h0 (by simp [e])
+    have h0r : (0 : UInt8) ∉ rest := fun e => h0 (by simp [e])
+    cases hvh : hexVal h with
+    | none =>
+      have hst : urldecodeStep (pct :: po) (h :: l :: rest) = (pct :: po, h :: l :: rest) := by
+        unfold urldecodeStep hexC
+        simp [hh, hvh]
+      rw [hst]
+      refine ⟨?_, h0, Nat.le_refl _⟩
+      conv => rhs; rw [urldecodePath]
+      simp [hvh]
+    | some hv =>
+      cases hvl : hexVal l with
+      | none =>
+        have hst : urldecodeStep (pct :: po) (h :: l :: rest) = (pct :: po, h :: l :: rest) := by
+          unfold urldecodeStep hexC
+          simp [hh, hvh, hvl]
+        rw [hst]
+        refine ⟨?_, h0, Nat.le_refl _⟩
+        conv => rhs; rw [urldecodePath]
+        simp [hvh, hvl]
+      | some lv =>
+        have hst : urldecodeStep (pct :: po) (h :: l :: rest) = (decodeByte hv lv :: po, rest) := by
+          unfold urldecodeStep hexC
+          simp [hh, hvh, hvl]
+        rw [hst]
+        refine ⟨?_, h0r, by simp; omega⟩
+        conv => rhs; rw [urldecodePath]
+        simp [hvh, hvl]
+
+/-- the loop of buffer_urldecode_path() on NUL-free input computes the specification -/
+theorem urldecodeLoop_eq : ∀ (fuel : Nat) (po r : Bytes), (0 : UInt8) ∉ r → r.length < fuel →
+    urldecodeLoop fuel (pct :: po) r = po.reverse ++ urldecodePath (pct :: r) := by
+  intro fuel
+  induction fuel with
+  | zero => intro po r _ h; omega
+  | succ f ih =>
+    intro po r h0 hf
+    obtain ⟨hval, h1, hl⟩ := urldecodeStep_spec po r h0
+    rw [urldecodeLoop]
+    generalize urldecodeStep (pct :: po) r = st at hval h1 hl ⊢
+    obtain ⟨po1, r1⟩ := st
+    simp only at hval h1 hl ⊢
+    rw [← hval]
+    have hsplit := takeWhile_split (fun b => b ≠ pct && b ≠ 0) r1
+    generalize hseg : r1.takeWhile (fun b => b ≠ pct && b ≠ 0) = seg at hsplit ⊢
+    have hsegp : pct ∉ seg := by
+      intro hm; rw [← hseg] at hm
+      have := takeWhile_no _ _ _ hm
+      simp at this
+    cases htl : r1.drop seg.length with
+    | nil =>
+      rw [htl, List.append_nil] at hsplit
+      simp only
+      rw [hsplit, urldecodePath_nopct seg hsegp]; simp
+    | cons b r2 =>
+      rw [htl] at hsplit
+      have hb0 : b ≠ 0 := fun e => h1 (by rw [hsplit]; simp [e])
+      have hd : r1.dropWhile (fun b => b ≠ pct && b ≠ 0) = b :: r2 := by
+        have := List.takeWhile_append_dropWhile (p := fun b => b ≠ pct && b ≠ 0) (l := r1)
+        rw [hseg] at this
+        have h2 : seg ++ r1.dropWhile (fun b => b ≠ pct && b ≠ 0) = seg ++ (b :: r2) := by
+          rw [this]; exact hsplit
+        exact List.append_cancel_left h2
+      have hbp : b = pct := by
+        have hstop := dropWhile_stop (fun b => b ≠ pct && b ≠ 0) r1 b r2 hd
+        simp only [Bool.and_eq_false_iff, bne_eq_false_iff_eq, ne_eq, decide_eq_false_iff_not,
+                   Decidable.not_not] at hstop
+        rcases hstop with e | e
+        · exact e
+        · exact absurd e hb0
+      subst hbp
+      simp only [hb0, if_false]
+      have h02 : (0 : UInt8) ∉ r2 := fun e => h1 (by rw [hsplit]; simp [e])
+      have hl2 : r2.length < f := by
+        have := congrArg List.length hsplit
+        simp only [List.length_append, List.length_cons] at this
+        omega
+      rw [ih _ r2 h02 hl2]
+      conv => rhs; rw [hsplit]
+      rw [urldecodePath_prefix seg _ hsegp]
+      simp
+
+/-- buffer_urldecode_path() as the C runs it equals the specification on NUL-free input (on other input
+    the C stops at the first NUL behind the first '%': `urldecodePathC` is what the harness compares) -/
+theorem urldecodePathC_eq (s : Bytes) (h : (0 : UInt8) ∉ s) : urldecodePathC s = urldecodePath s := by
+  unfold urldecodePathC
+  have hsplit := takeWhile_split (· ≠ pct) s
+  generalize hpre : s.takeWhile (· ≠ pct) = pre at hsplit ⊢
+  have hprep : pct ∉ pre := by
+    intro hm; rw [← hpre] at hm
+    have := takeWhile_no _ _ _ hm
+    simp at this
+  simp only
+  cases htl : s.drop pre.length with
+  | nil =>
+    rw [htl, List.append_nil] at hsplit
+    simp only
+    rw [hsplit, urldecodePath_nopct pre hprep]
+  | cons b r =>
+    rw [htl] at hsplit
+    have hbp : b = pct := by
+      have hd : s.dropWhile (· ≠ pct) = b :: r := by
+        have := List.takeWhile_append_dropWhile (p := (· ≠ pct)) (l := s)
+        rw [hpre] at this
+        have h2 : pre ++ s.dropWhile (· ≠ pct) = pre ++ (b :: r) := by rw [this]; exact hsplit
+        exact List.append_cancel_left h2
+      have := dropWhile_stop (· ≠ pct) s b r hd
+      simpa using this
+    subst hbp
+    simp only
+    have h0r : (0 : UInt8) ∉ r := fun e => h (by rw [hsplit]; simp [e])
+    have hl : r.length < s.length + 1 := by
+      have := congrArg List.length hsplit
+      simp only [List.length_append, List.length_cons] at this
+      omega
+    rw [urldecodeLoop_eq _ _ r h0r hl, List.reverse_reverse]
+    conv => rhs; rw [hsplit]
+    rw [urldecodePath_prefix pre _ hprep]
+
 end LtVerif
